@@ -1,5 +1,9 @@
 // Shared helpers for the C++ side of the line protocol (one op per line in, one result per line out).
 #pragma once
+#include <sys/time.h>
+#include <signal.h>
+#include <unistd.h>
+#include <string.h>
 #include <cstdint>
 #include <cstdio>
 #include <cstdlib>
@@ -102,6 +106,18 @@ static inline int line_loop(const std::function<std::string(const std::string&)>
   free(line);
   fflush(stdout);
   return 0;
+}
+
+// CPU-time watchdog (SIGPROF after `sec` seconds of user+system time of this process) with a generous wall-clock backstop
+// (SIGALRM after 40x as long): a machine under heavy load must not turn into a TIMEOUT verdict.
+static inline void cpu_alarm(unsigned sec, void (*handler)(int)) {
+  signal(SIGPROF, handler);
+  signal(SIGALRM, handler);
+  struct itimerval it;
+  memset(&it, 0, sizeof(it));
+  it.it_value.tv_sec = sec;
+  setitimer(ITIMER_PROF, &it, nullptr);
+  alarm(sec ? sec * 40u : 0u);
 }
 
 } // namespace vh
